@@ -284,10 +284,13 @@ func c06Menu(thorough bool) []enga.ABlock {
 		{Restart: true},
 		{Events: []enga.Event{{Kind: "tx:approve", Var: "again"}}}, // late duplicate approval of refunded withdrawals
 	}
+	m = append(m,
+		enga.ABlock{Events: []enga.Event{{Kind: "req:cancel"}}},
+		enga.ABlock{Events: []enga.Event{{Kind: "tx:approve"}}},
+	)
 	if thorough {
 		m = append(m,
-			enga.ABlock{Events: []enga.Event{{Kind: "req:cancel"}}},
-			enga.ABlock{Events: []enga.Event{{Kind: "tx:approve"}}},
+			enga.ABlock{Events: []enga.Event{{Kind: "tx:replace"}}},
 			enga.ABlock{Mode: "built", Events: []enga.Event{{Kind: "tx:deposits", N: 9}}},
 			enga.ABlock{Events: []enga.Event{{Kind: "tx:hashes", N: 0}}},
 		)
